@@ -134,7 +134,7 @@ def dyadic_region(rng, kind=None):
 
 class Check(PropertyCheck):
     id = 'C15'
-    lean_targets = ['RegionsVerif.Props.C15', 'RegionsVerif.Props.C15Box']
+    lean_targets = ['RegionsVerif.Props.C15', 'RegionsVerif.Props.C15Box', 'RegionsVerif.Props.C15Mask']
     namespaces = ['RegionsVerif.Props.C15']
     rule = ('rotation: all pixel region classes incl. regular polygons, annuli, lines/points/text and compounds to depth 2 x '
             'rotation centres (near, far) x angles of any magnitude/sign/unit x query points scaled to the shape; '
@@ -145,7 +145,7 @@ class Check(PropertyCheck):
                    'bounding boxes under translation: sides within 1e-9 of a pixel edge with inexact trigonometry are excepted']
     validated_only = ['rotation invariance of the even-odd rule for polygons (equivalent to ray-direction independence; not proved): '
                       'decided by the differential run against the exact crossing oracle on rotated polygons',
-                      'mask arrays unchanged under whole-pixel translation: checked on the real code (exact array equality)']
+                      'mask arrays unchanged under translation are a theorem for the model (C15Mask.mask_shift, center/subpixels); exact mode and the compiled kernels: checked on the real code (exact array equality)']
 
     def generate(self, rng, tier):
         cases = []
